@@ -233,17 +233,35 @@ func c04Gen(r *vkit.Run, i int) *c04Case {
 }
 
 func c04(r *vkit.Run) {
-	r.SetRule("cases = 1-7 backends (weights 1..6 / up to 1e6 / proportional classes with many exact ties / a rare class with weights 2^42..2^48 where conn*weight*100 leaves int64; some weight 0 or negative, some unavailable) x 3-10 steps; before each step the connection counts are driven to generated values (0..7, proportional to weight +-1, up to 3000, up to 2^16) with IncConnNum/DecConnNum; algorithms WlcSmooth and WlcSimple on BalanceRR and WLC through BalanceGslb. The pick must satisfy conn(pick)*w(x) <= conn(x)*w(pick) for every eligible x (big.Int). Steps with no eligible backend or an erroneous result are left to C03. Non-trivial = a step with >=2 eligible backends that are not all tied; distinct = whole case")
+	r.SetRule("cases = 1-7 backends (weights 1..6 / up to 1e6 / proportional classes with many exact ties / a rare class with weights 2^42..2^48 where conn*weight*100 leaves int64; some weight 0 or negative, some unavailable) x 3-10 steps; before each step the connection counts are driven to generated values (0..7, proportional to weight +-1, up to 3000, up to 2^16) with IncConnNum/DecConnNum; algorithms WlcSmooth and WlcSimple on BalanceRR and WLC through BalanceGslb. The pick must satisfy conn(pick)*w(x) <= conn(x)*w(pick) for every eligible x (big.Int). Steps with no eligible backend or an erroneous result are left to C03. Non-trivial = a step with >=2 eligible backends that are not all tied; distinct = whole case." + c04EligRule)
 	r.Assume("connection counts are non-negative (a negative count is C07's subject)")
 	if r.Replay != "" {
 		var w struct {
-			Case c04Case `json:"case"`
+			Case json.RawMessage `json:"case"`
+			E    *c04ECase       `json:"ecase"` // eligibility dimension (c04elig.go)
 		}
 		if err := r.LoadReplay(&w); err != nil {
 			r.Inconclusive(err.Error())
 			return
 		}
-		c04Run(r, &w.Case)
+		if w.E == nil && len(w.Case) > 0 {
+			var in struct {
+				E *c04ECase `json:"ecase"`
+			}
+			if json.Unmarshal(w.Case, &in) == nil {
+				w.E = in.E
+			}
+		}
+		if w.E != nil {
+			c04ERun(r, w.E)
+		} else {
+			var c c04Case
+			if err := json.Unmarshal(w.Case, &c); err != nil {
+				r.Inconclusive(err.Error())
+				return
+			}
+			c04Run(r, &c)
+		}
 		r.SetMinDistinct(0)
 		return
 	}
@@ -254,4 +272,5 @@ func c04(r *vkit.Run) {
 			r.Inconclusive("the workload never reached " + k)
 		}
 	}
+	c04Elig(r)
 }
